@@ -83,9 +83,15 @@ def ob_walk(ctx):
         for j in range(i + 1, m + 1):
             cs.append(Not(seq_eq(o[i], o[j])))
         for j in range(i, m + 1):
+            if (i, j) == (0, m):
+                # the chain's first start and last end (the vector's two overhangs) may be reverse complements of each
+                # other: C01's space only forbids it among start overhangs, and here among end overhangs too, so that
+                # the reverse-complemented inputs are in C01's space as well
+                continue
             rc = rc_codes(o[j])
             cs.append(Not(And([Eq(sat(o[i], q), rc[q]) for q in range(k)])))
     ctx.assume(And(cs))
+    ctx.witness("vector-overhangs-reverse-complementary", And([Eq(sat(o[0], q), rc_codes(o[m])[q]) for q in range(k)]))
 
     def R(x):
         return SSeq.of_codes(rc_codes(x)) if is_sym(x) or True else None
@@ -139,6 +145,8 @@ def ob_e2e(ctx):
         for j in range(i + 1, c + 1):
             cs.append(Not(seq_eq(o[i], o[j])))
         for j in range(i, c + 1):
+            if (i, j) == (0, c):
+                continue  # (see ob_walk)
             rc = rc_codes(o[j])
             cs.append(Not(And([Eq(sat(o[i], q), rc[q]) for q in range(g.ovl)])))
     ctx.assume(And(cs))
